@@ -114,3 +114,157 @@ Theorem C20_model_is_source_RationalQuadraticKernel_new :
   forall (T : Type) (O : Ops T) (var alpha ls : T),
     RationalQuadraticKernel_new O var alpha ls = rq_new O var alpha ls.
 Proof. exact @tiea_RationalQuadraticKernel_new. Qed.
+
+(** ** The matrix form IS the plumbing: composition of the verified component models (extension).
+    [Model/KernelsPlumbing.v] writes the matrix-form [forward] of both kernels, on the four argument types (Vector, &Vector,
+    Matrix, &Matrix), as the composition — in the order the Rust code calls them — of the model functions of the
+    properties that own them: [reshape] / [Vector::reshape] (C15, Model/Shape.v), element-wise [powi], negation, [exp],
+    [powf] and the four scalar-matrix operators through the regenerated impl table (C04, Model/Vops.v),
+    [Matrix + Matrix] / [Matrix - Matrix] = [broadcast] (C04 / C12, Model/Broadcast.v) and [dot_t] (C05, Model/MatMul.v).
+    [points a] is the point set an argument stands for: the entries of a non-empty Vector, the row-major data of a Matrix
+    satisfying the struct invariant (ANY shape: [reshape(-1, 1)] flattens it); [None] otherwise.
+    The theorems say, for every carrier (no algebraic law), all point sets and all argument types, that the composition
+    returns exactly the |xs| x |ys| matrix of the net entry formula and panics exactly when a point set is missing. *)
+From Compute Require Import Model.Shape Model.Broadcast Model.Vops Model.KernelsPlumbing Proofs.C20_plumbing.
+Local Close Scope R_scope.
+Local Open Scope nat_scope.
+
+(** closed form on EVERY carrier, no hypothesis at all: the squares come from the element-wise [powi] kernel
+    ([table_sq]: entry (i,j) = the entry formula with x² := the i-th element of [vpowi xs 2], y² := the j-th of [vpowi ys 2]) *)
+Theorem C20_matrix_form_is_plumbing_rbf_any_carrier :
+  forall (T : Type) (O : Ops T) (var ls : T) (ax ay : karg T),
+    rbf_forward_plumbing O var ls ax ay =
+    match points ax, points ay with
+    | Some xs, Some ys => Some (mkmat (length xs) (length ys) (table_sq O (rbf_entry_sq O var ls) xs ys))
+    | _, _ => None
+    end.
+Proof. exact @rbf_plumbing_any_carrier. Qed.
+Theorem C20_matrix_form_is_plumbing_rq_any_carrier :
+  forall (T : Type) (O : Ops T) (var alpha ls : T) (ax ay : karg T),
+    rq_forward_plumbing O var alpha ls ax ay =
+    match points ax, points ay with
+    | Some xs, Some ys => Some (mkmat (length xs) (length ys) (table_sq O (rq_entry_sq O var alpha ls) xs ys))
+    | _, _ => None
+    end.
+Proof. exact @rq_plumbing_any_carrier. Qed.
+
+(** ... which is the matrix of [rbf_entry] / [rq_entry] on every carrier where the kernel's [x * x] is the scalar code's
+    [x.powi(2)] (the only fact about the carrier that is used; it holds on the reals and bit for bit on binary64, below) *)
+Theorem C20_matrix_form_is_plumbing_rbf :
+  forall (T : Type) (O : Ops T), (forall x : T, mul O x x = powi O x 2) ->
+  forall (var ls : T) (ax ay : karg T),
+    rbf_forward_plumbing O var ls ax ay =
+    match points ax, points ay with
+    | Some xs, Some ys => Some (mkmat (length xs) (length ys) (flatten (rbf_matrix O var ls xs ys)))
+    | _, _ => None
+    end.
+Proof. exact @rbf_plumbing_net. Qed.
+Theorem C20_matrix_form_is_plumbing_rq :
+  forall (T : Type) (O : Ops T), (forall x : T, mul O x x = powi O x 2) ->
+  forall (var alpha ls : T) (ax ay : karg T),
+    rq_forward_plumbing O var alpha ls ax ay =
+    match points ax, points ay with
+    | Some xs, Some ys => Some (mkmat (length xs) (length ys) (flatten (rq_matrix O var alpha ls xs ys)))
+    | _, _ => None
+    end.
+Proof. exact @rq_plumbing_net. Qed.
+
+(** shape and entry (i,j) of the result, in the flat row-major data the Rust struct holds *)
+Theorem C20_matrix_form_is_plumbing_rbf_entry :
+  forall (T : Type) (O : Ops T), (forall x : T, mul O x x = powi O x 2) ->
+  forall (var ls : T) (ax ay : karg T) (xs ys : list T) (i j : nat) (d : T),
+    points ax = Some xs -> points ay = Some ys -> i < length xs -> j < length ys ->
+    exists r, rbf_forward_plumbing O var ls ax ay = Some r /\
+              Broadcast.nr r = length xs /\ Broadcast.nc r = length ys /\
+              length (Broadcast.dat r) = length xs * length ys /\
+              nth (i * Broadcast.nc r + j) (Broadcast.dat r) d = rbf_entry O var ls (nth i xs d) (nth j ys d).
+Proof. exact @rbf_plumbing_entry. Qed.
+Theorem C20_matrix_form_is_plumbing_rq_entry :
+  forall (T : Type) (O : Ops T), (forall x : T, mul O x x = powi O x 2) ->
+  forall (var alpha ls : T) (ax ay : karg T) (xs ys : list T) (i j : nat) (d : T),
+    points ax = Some xs -> points ay = Some ys -> i < length xs -> j < length ys ->
+    exists r, rq_forward_plumbing O var alpha ls ax ay = Some r /\
+              Broadcast.nr r = length xs /\ Broadcast.nc r = length ys /\
+              length (Broadcast.dat r) = length xs * length ys /\
+              nth (i * Broadcast.nc r + j) (Broadcast.dat r) d = rq_entry O var alpha ls (nth i xs d) (nth j ys d).
+Proof. exact @rq_plumbing_entry. Qed.
+
+(** the two carriers of the development, without hypothesis: reals (the object of the theorems above) and binary64 with
+    EVERY recorded libm table (the object of the bitwise correspondence) *)
+Theorem C20_matrix_form_is_plumbing_rbf_R :
+  forall (var ls : R) (ax ay : karg R),
+    rbf_forward_plumbing RO var ls ax ay =
+    match points ax, points ay with
+    | Some xs, Some ys => Some (mkmat (length xs) (length ys) (flatten (rbf_matrix RO var ls xs ys)))
+    | _, _ => None
+    end.
+Proof. exact rbf_plumbing_R. Qed.
+Theorem C20_matrix_form_is_plumbing_rq_R :
+  forall (var alpha ls : R) (ax ay : karg R),
+    rq_forward_plumbing RO var alpha ls ax ay =
+    match points ax, points ay with
+    | Some xs, Some ys => Some (mkmat (length xs) (length ys) (flatten (rq_matrix RO var alpha ls xs ys)))
+    | _, _ => None
+    end.
+Proof. exact rq_plumbing_R. Qed.
+Theorem C20_matrix_form_is_plumbing_rbf_binary64 :
+  forall (tbl : libm_table) (var ls : PrimFloat.float) (ax ay : karg PrimFloat.float),
+    rbf_forward_plumbing (FO tbl) var ls ax ay =
+    match points ax, points ay with
+    | Some xs, Some ys => Some (mkmat (length xs) (length ys) (flatten (rbf_matrix (FO tbl) var ls xs ys)))
+    | _, _ => None
+    end.
+Proof. exact rbf_plumbing_binary64. Qed.
+Theorem C20_matrix_form_is_plumbing_rq_binary64 :
+  forall (tbl : libm_table) (var alpha ls : PrimFloat.float) (ax ay : karg PrimFloat.float),
+    rq_forward_plumbing (FO tbl) var alpha ls ax ay =
+    match points ax, points ay with
+    | Some xs, Some ys => Some (mkmat (length xs) (length ys) (flatten (rq_matrix (FO tbl) var alpha ls xs ys)))
+    | _, _ => None
+    end.
+Proof. exact rq_plumbing_binary64. Qed.
+
+(** rejection, every carrier: the call returns a value exactly when both arguments have a point set ... *)
+Theorem C20_matrix_form_is_plumbing_rbf_accepts_iff :
+  forall (T : Type) (O : Ops T) (var ls : T) (ax ay : karg T),
+    (exists r, rbf_forward_plumbing O var ls ax ay = Some r) <-> (points ax <> None /\ points ay <> None).
+Proof. exact @rbf_plumbing_accepts_iff. Qed.
+Theorem C20_matrix_form_is_plumbing_rq_accepts_iff :
+  forall (T : Type) (O : Ops T) (var alpha ls : T) (ax ay : karg T),
+    (exists r, rq_forward_plumbing O var alpha ls ax ay = Some r) <-> (points ax <> None /\ points ay <> None).
+Proof. exact @rq_plumbing_accepts_iff. Qed.
+(** ... and an argument has no point set exactly when it is an empty Vector, or a Matrix violating the struct invariant /
+    without entries (neither can be built through the crate's constructors).  A row-shaped (or any r x c) Matrix IS accepted:
+    it is flattened to r*c points, so two Matrix arguments of unequal counts are fine. *)
+Theorem C20_matrix_form_is_plumbing_rejected_arguments :
+  forall (T : Type) (a : karg T),
+    points a = None <->
+    match a with
+    | KVector v | KRefVector v => v = []
+    | KMatrix m | KRefMatrix m => Shape.nrows m * Shape.ncols m <> length (Shape.data m) \/ Shape.data m = []
+    end.
+Proof. exact @points_none_iff. Qed.
+(** the owned and the borrowed form of an argument run the same code ([reshape] takes [&self]) *)
+Theorem C20_matrix_form_is_plumbing_owned_is_borrowed :
+  forall (T : Type) (O : Ops T) (var alpha ls : T) (v w : list T) (m p : Shape.mat T),
+    rbf_forward_plumbing O var ls (KVector v) (KVector w) = rbf_forward_plumbing O var ls (KRefVector v) (KRefVector w) /\
+    rbf_forward_plumbing O var ls (KMatrix m) (KMatrix p) = rbf_forward_plumbing O var ls (KRefMatrix m) (KRefMatrix p) /\
+    rq_forward_plumbing O var alpha ls (KVector v) (KVector w) = rq_forward_plumbing O var alpha ls (KRefVector v) (KRefVector w) /\
+    rq_forward_plumbing O var alpha ls (KMatrix m) (KMatrix p) = rq_forward_plumbing O var alpha ls (KRefMatrix m) (KRefMatrix p).
+Proof. exact @plumbing_owned_is_borrowed. Qed.
+
+(** the hypotheses are satisfiable on a non-trivial instance: a 2 x 3 Matrix (six points after flattening) against a
+    borrowed 2 x 1 Matrix of two points, on the reals; the composition returns a 6 x 2 matrix; an empty Vector and a Matrix
+    whose data is too short have no point set and the call panics; the carrier hypothesis holds on the reals *)
+Example C20_example_plumbing :
+  let a := KMatrix (mkMat 2 3 [1%R; 2%R; 3%R; 4%R; 5%R; 6%R]) in let b := KRefMatrix (mkMat 2 1 [0%R; 7%R]) in
+  points a = Some [1%R; 2%R; 3%R; 4%R; 5%R; 6%R] /\ points b = Some [0%R; 7%R] /\
+  (exists r, rbf_forward_plumbing RO 1%R 1%R a b = Some r /\ Broadcast.nr r = 6 /\ Broadcast.nc r = 2) /\
+  points (KVector (@nil R)) = None /\ points (KMatrix (mkMat 2 2 [1%R; 2%R; 3%R])) = None /\
+  rbf_forward_plumbing RO 1%R 1%R (KVector []) (KVector [1%R]) = None /\
+  (forall x : R, mul RO x x = powi RO x 2).
+Proof.
+  cbv zeta. split; [reflexivity|]. split; [reflexivity|]. split.
+  - rewrite rbf_plumbing_R. eexists; split; [reflexivity|split; reflexivity].
+  - split; [reflexivity|]. split; [reflexivity|]. split; [rewrite rbf_plumbing_R; reflexivity|exact sq_is_powi_R].
+Qed.
